@@ -196,6 +196,284 @@ theorem components_joinSlash (ps : List Name) (hne : ps ≠ [])
   simp only [Option.some.injEq, this, if_false]
   exact hbody
 
+/-! ## C. gates before effects -/
+
+theorem ensureSession_editor (i : Inner) (tok now : Nat) (i' : Inner) (s : Session)
+    (h : ensureSession i tok now = (i', some s)) : liveEditor i tok now = s.editor := by
+  unfold ensureSession at h
+  unfold liveEditor
+  simp only at h
+  split at h
+  · simp at h
+  · rename_i s0 hs0
+    simp only [Prod.mk.injEq, Option.some.injEq] at h
+    rw [hs0, ← h.2]
+
+theorem ensureSession_none (i : Inner) (tok now : Nat) (i' : Inner)
+    (h : ensureSession i tok now = (i', none)) : liveEditor i tok now = false := by
+  unfold ensureSession at h
+  unfold liveEditor
+  simp only at h
+  split at h
+  · rename_i hs0; rw [hs0]
+  · simp at h
+
+theorem ensureEditor_ok (i : Inner) (tok now : Nat) (i' : Inner)
+    (h : ensureEditor i tok now = (i', none)) : liveEditor i tok now = true := by
+  unfold ensureEditor at h
+  split at h
+  · simp at h
+  · rename_i i1 s hs
+    split at h
+    · rename_i hed
+      rw [ensureSession_editor i tok now i1 s hs, hed]
+    · simp at h
+
+/-- what a refused / read-only operation leaves behind -/
+def Quiet (w : World) (o : Out) : Prop :=
+  o.world.fs = w.fs ∧ o.world.inner.docs = w.inner.docs ∧ o.world.inner.audit = w.inner.audit ∧
+  ∀ e ∈ o.effects, e.isMutation = false
+
+theorem quiet_fail (w : World) (i : Inner) (e : Err) (effs : List Effect)
+    (hd : i.docs = w.inner.docs) (ha : i.audit = w.inner.audit)
+    (he : ∀ x ∈ effs, x.isMutation = false) : Quiet w (fail { w with inner := i } e effs) :=
+  ⟨rfl, hd, ha, he⟩
+
+theorem quiet_fail' (w : World) (e : Err) (effs : List Effect)
+    (he : ∀ x ∈ effs, x.isMutation = false) : Quiet w (fail w e effs) :=
+  ⟨rfl, rfl, rfl, he⟩
+
+theorem prune_docs (i : Inner) (now : Nat) : (prune i now).docs = i.docs ∧ (prune i now).audit = i.audit :=
+  ⟨rfl, rfl⟩
+
+theorem ensureSession_docs (i : Inner) (tok now : Nat) :
+    (ensureSession i tok now).1.docs = i.docs ∧ (ensureSession i tok now).1.audit = i.audit := by
+  unfold ensureSession
+  simp only
+  split <;> exact ⟨rfl, rfl⟩
+
+theorem ensureEditor_docs (i : Inner) (tok now : Nat) :
+    (ensureEditor i tok now).1.docs = i.docs ∧ (ensureEditor i tok now).1.audit = i.audit := by
+  have h := ensureSession_docs i tok now
+  unfold ensureEditor
+  split
+  · rename_i i1 hs; rw [hs] at h; exact h
+  · rename_i i1 s hs
+    rw [hs] at h
+    split <;> exact h
+
+theorem applySource_quiet (w : World) (tok : Nat) (path : List Char) (expected : Nat)
+    (content : List Char) (we : Bool) (h : (we && liveEditor w.inner tok w.now) = false) :
+    Quiet w (applySource w tok path expected content we) := by
+  unfold applySource
+  split
+  · exact quiet_fail' w _ _ (by simp)
+  · rename_i hwe
+    have hwe' : we = true := by simpa using hwe
+    have hlive : liveEditor w.inner tok w.now = false := by simpa [hwe'] using h
+    split
+    · exact quiet_fail' w _ _ (by simp)
+    · split
+      · exact quiet_fail' w _ _ (by simp)
+      · split
+        · exact quiet_fail' w _ _ (by simp)
+        · split
+          · exact quiet_fail' w _ _ (by simp)
+          · rename_i q disk _
+            have hd := ensureSession_docs w.inner tok w.now
+            split
+            · rename_i i hs
+              rw [hs] at hd
+              exact quiet_fail w i _ _ hd.1 hd.2 (by simp [Effect.isMutation])
+            · rename_i i s hs
+              rw [hs] at hd
+              have hed := ensureSession_editor _ _ _ _ _ hs
+              rw [hlive] at hed
+              simp only [← hed]
+              exact quiet_fail w i _ _ hd.1 hd.2 (by simp [Effect.isMutation])
+
+theorem createEntry_quiet (w : World) (tok : Nat) (path : List Char) (isDir : Bool)
+    (content : Option (List Char)) (we : Bool) (h : (we && liveEditor w.inner tok w.now) = false) :
+    Quiet w (createEntry w tok path isDir content we) := by
+  unfold createEntry
+  split
+  · exact quiet_fail' w _ _ (by simp)
+  · rename_i hwe
+    have hwe' : we = true := by simpa using hwe
+    have hlive : liveEditor w.inner tok w.now = false := by simpa [hwe'] using h
+    split
+    · exact quiet_fail' w _ _ (by simp)
+    · split
+      · exact quiet_fail' w _ _ (by simp)
+      · split
+        · exact quiet_fail' w _ _ (by simp)
+        · have hd := ensureEditor_docs w.inner tok w.now
+          split
+          · rename_i i e hs
+            rw [hs] at hd
+            exact quiet_fail w i _ _ hd.1 hd.2 (by simp)
+          · rename_i i hs
+            have := ensureEditor_ok _ _ _ _ hs
+            rw [hlive] at this
+            cases this
+
+theorem renameEntry_quiet (w : World) (tok : Nat) (path newPath : List Char) (we : Bool)
+    (h : (we && liveEditor w.inner tok w.now) = false) :
+    Quiet w (renameEntry w tok path newPath we) := by
+  unfold renameEntry
+  split
+  · exact quiet_fail' w _ _ (by simp)
+  · rename_i hwe
+    have hwe' : we = true := by simpa using hwe
+    have hlive : liveEditor w.inner tok w.now = false := by simpa [hwe'] using h
+    split
+    · exact quiet_fail' w _ _ (by simp)
+    · split
+      · exact quiet_fail' w _ _ (by simp)
+      · split
+        · exact quiet_fail' w _ _ (by simp)
+        · simp only
+          split
+          · exact quiet_fail' w _ _ (by simp)
+          · split
+            · exact quiet_fail' w _ _ (by simp)
+            · split
+              · exact quiet_fail' w _ _ (by simp)
+              · have hd := ensureEditor_docs w.inner tok w.now
+                split
+                · rename_i i e hs
+                  rw [hs] at hd
+                  exact quiet_fail w i _ _ hd.1 hd.2 (by simp)
+                · rename_i i hs
+                  have := ensureEditor_ok _ _ _ _ hs
+                  rw [hlive] at this
+                  cases this
+
+theorem deleteEntry_quiet (w : World) (tok : Nat) (path : List Char) (we : Bool)
+    (h : (we && liveEditor w.inner tok w.now) = false) :
+    Quiet w (deleteEntry w tok path we) := by
+  unfold deleteEntry
+  split
+  · exact quiet_fail' w _ _ (by simp)
+  · rename_i hwe
+    have hwe' : we = true := by simpa using hwe
+    have hlive : liveEditor w.inner tok w.now = false := by simpa [hwe'] using h
+    split
+    · exact quiet_fail' w _ _ (by simp)
+    · split
+      · exact quiet_fail' w _ _ (by simp)
+      · split
+        · exact quiet_fail' w _ _ (by simp)
+        · simp only
+          have hd := ensureEditor_docs w.inner tok w.now
+          split
+          · rename_i i e hs
+            rw [hs] at hd
+            exact quiet_fail w i _ _ hd.1 hd.2 (by simp)
+          · rename_i i hs
+            have := ensureEditor_ok _ _ _ _ hs
+            rw [hlive] at this
+            cases this
+
+/-- a read-only operation: the file system is untouched, whoever calls it -/
+def ReadOnly (w : World) (o : Out) : Prop :=
+  o.world.fs = w.fs ∧ ∀ e ∈ o.effects, e.isMutation = false
+
+theorem Quiet.readOnly {w : World} {o : Out} (h : Quiet w o) : ReadOnly w o := ⟨h.1, h.2.2.2⟩
+
+theorem withSession_readOnly (w : World) (tok : Nat) (k : World → Out)
+    (hk : ∀ w', w'.fs = w.fs → ReadOnly w' (k w')) : ReadOnly w (withSession w tok k) := by
+  unfold withSession
+  split
+  · exact ⟨rfl, by simp [fail]⟩
+  · rename_i i _ _
+    have := hk { w with inner := i } rfl
+    exact ⟨this.1, this.2⟩
+
+theorem mem_map_list_nonmut (ds : List Path) : ∀ e ∈ ds.map Effect.list, e.isMutation = false := by
+  intro e he
+  simp only [List.mem_map] at he
+  obtain ⟨d, _, rfl⟩ := he
+  rfl
+
+theorem readonly_ops (w : World) (op : Op) (h : op.mayMutate w = false) :
+    ReadOnly w (step w op) := by
+  cases op with
+  | createSession e =>
+    simp only [step, createSession]
+    split
+    · exact ⟨rfl, by simp [fail]⟩
+    · exact ⟨rfl, by simp⟩
+  | listSources t =>
+    simp only [step, listSources]
+    apply withSession_readOnly
+    intro w' hw'
+    split
+    · exact ⟨rfl, by simp [fail]⟩
+    · exact ⟨rfl, mem_map_list_nonmut _⟩
+  | listTree t =>
+    simp only [step, listTree]
+    apply withSession_readOnly
+    intro w' hw'
+    split
+    · exact ⟨rfl, by simp [fail]⟩
+    · exact ⟨rfl, mem_map_list_nonmut _⟩
+  | search t q l =>
+    simp only [step, workspaceSearch]
+    apply withSession_readOnly
+    intro w' hw'
+    split
+    · exact ⟨rfl, by simp⟩
+    · split
+      · exact ⟨rfl, by simp [fail]⟩
+      · refine ⟨rfl, ?_⟩
+        intro e he
+        simp only [List.mem_append, List.mem_map, List.mem_filterMap] at he
+        rcases he with ⟨d, _, rfl⟩ | ⟨x, _, hx⟩
+        · rfl
+        · cases hx2 : x.2 with
+          | none => simp [hx2] at hx
+          | some r => simp [hx2] at hx; subst hx; rfl
+  | «open» t p =>
+    simp only [step, openSource]
+    split
+    · exact ⟨rfl, by simp [fail]⟩
+    · split
+      · exact ⟨rfl, by simp [fail]⟩
+      · split
+        · exact ⟨rfl, by simp [fail]⟩
+        · split
+          · exact ⟨rfl, by simp [fail, Effect.isMutation]⟩
+          · split
+            · exact ⟨rfl, by simp [fail, Effect.isMutation]⟩
+            · exact ⟨rfl, by simp [Effect.isMutation]⟩
+  | format t p c =>
+    simp only [step, formatSource]
+    split
+    · exact ⟨rfl, by simp [fail]⟩
+    · apply withSession_readOnly
+      intro w' hw'
+      split
+      · split
+        · exact ⟨rfl, by simp [fail]⟩
+        · exact ⟨rfl, by simp⟩
+      · split
+        · exact ⟨rfl, by simp [fail]⟩
+        · split
+          · exact ⟨rfl, by simp [fail]⟩
+          · split
+            · exact ⟨rfl, by simp [fail, Effect.isMutation]⟩
+            · exact ⟨rfl, by simp [Effect.isMutation]⟩
+  | health t =>
+    simp only [step, health]
+    apply withSession_readOnly
+    intro w' hw'
+    exact ⟨rfl, by simp⟩
+  | apply t p e c we => exact (applySource_quiet w t p e c we h).readOnly
+  | create t p d c we => exact (createEntry_quiet w t p d c we h).readOnly
+  | rename t p n we => exact (renameEntry_quiet w t p n we h).readOnly
+  | delete t p we => exact (deleteEntry_quiet w t p we h).readOnly
+
 /-! ## D. protocol invariant -/
 namespace Proto
 
